@@ -250,14 +250,26 @@ def _run_net(ctx: Ctx):
 
 
 # ---------------------------------------------------------------------------------------------- R-app
+def _app_diff(case: dict):
+    records = rnet.run_apps(case)
+    lines, groups = rnet.app_model_lines(case)
+    out = run_driver(EXE, lines)
+    model = rnet.app_model_answers(out, groups, case)
+    impl = [r["answer"] for r in records]
+    i = next((j for j, (a, b) in enumerate(zip(impl, model)) if a != b), -1)
+    return i < 0 and len(impl) == len(model), impl, model, i, records
+
+
 def _run_apps(ctx: Ctx):
-    """Real application exchanges (DNS look-up, database connect + query) across the generated routers: implementation only, the
-    property's own oracles (termination, TTL, addressee, permitted exchanges succeed).  Search / validation, not proof: the
-    model's service exchange is one UDP request / reply; these go through the same hand-over code with other ports and payloads."""
+    """R-app, DIFFERENTIAL: real application exchanges (DNS look-up, database connect + query, web page request, FTP transfer)
+    across the generated plain routers vs the model's port-parametrised request / answer exchange (`NetOp.app`): result of every
+    operation and its whole event stream; server software present or absent, router rules permitting or not.  Plus the
+    property's own oracles on the implementation side."""
     rng = ctx.rng.fork("app")
     want = ctx.scale(40, 300)
-    done = tries = 0
-    while done < want and tries < want * 12:
+    cases = []
+    tries = 0
+    while len(cases) < want and tries < want * 12:
         tries += 1
         case = rnet.gen_case(rng)
         kinds = {nd["kind"] for nd in case["nodes"]}
@@ -266,21 +278,49 @@ def _run_apps(ctx: Ctx):
         if ("firewall" in kinds or "wrouter" in kinds or not case.get("consistent") or len(hosts) < 2
                 or notes.get("dual_homed") is not None or notes.get("via_host") or notes.get("routing") == "broken"):
             continue
-        case = dict(case, ops=[])
-        records = rnet.run_apps(case)
-        done += 1
+        cases.append(rnet.add_app_plan(case, rng))
+    lines_all, spans, rec_all = [], [], []
+    for case in cases:
+        rec_all.append(rnet.run_apps(case))
+        lines, groups = rnet.app_model_lines(case)
+        spans.append((len(lines_all), groups))
+        lines_all += lines
+    out = run_driver(EXE, lines_all, timeout=3000)
+    if "bad-op" in out:
+        raise RuntimeError(f"driver rejected a line: {[l for l, m in zip(lines_all, out) if m == 'bad-op'][:2]}")
+    agree = 0
+    for case, records, (off, groups) in zip(cases, rec_all, spans):
+        model = rnet.app_model_answers(out, [[off + p for p in g] for g in groups], case)
+        impl = [r["answer"] for r in records]
+        notes = case.get("notes", {})
         ctx.cov["traces_validated_against_impl"] += 1
         ctx.count(f"app-routers:{notes.get('routers')}")
+        ctx.count(f"app-mode:{case['app']['mode']}")
         routed = False
         for r in records:
             ctx.count(f"app-exchange:{r['op']['op'][4:]}:{r['res']}")
             ctx.count("app-events", len(r["raw"]))
             routed = routed or any(e[0] == "hop" for e in r["raw"])
         ctx.case(["app", case], routed)
-        bad = rnet.oracle(case, records)
+        full = case["app"]["mode"] == "all"
+        bad = rnet.oracle(dict(case, consistent=full), records)
         if bad:
             ctx.violation({"kind": "net-oracle", "defect": bad["kind"], "family": "app"}, bad["what"], {"rig": "app", "case": case})
-    ctx.oblige("rig:R-app ran its application exchanges", "correspondence", done > 0, f"{done} cases")
+        if impl == model:
+            agree += 1
+            continue
+        i = next((j for j, (a, b) in enumerate(zip(impl, model)) if a != b), min(len(impl), len(model)))
+        small = dict(case, app=dict(case["app"], ops=case["app"]["ops"][:i + 1]))
+        ok, impl2, model2, i2, _ = _app_diff(small)
+        if ok:
+            small, impl2, model2, i2 = case, impl, model, i
+        op = small["app"]["ops"][i2] if 0 <= i2 < len(small["app"]["ops"]) else None
+        what = "result" if (0 <= i2 < len(impl2) and i2 < len(model2) and impl2[i2].split()[:1] != model2[i2].split()[:1]) else "events"
+        ctx.violation({"kind": "model-vs-impl", "rig": "app", "op": op["kind"] if op else "?", "what": what},
+                      f"application exchange differs from the model at op {i2} ({op}): impl={impl2[i2][:200] if 0 <= i2 < len(impl2) else None!r} "
+                      f"model={model2[i2][:200] if 0 <= i2 < len(model2) else None!r}",
+                      {"rig": "app", "case": small, "impl": impl2, "model": model2, "first_diff": i2})
+    ctx.oblige("rig:R-app agrees on every trace", "correspondence", agree == len(cases), f"{len(cases) - agree} of {len(cases)} traces disagree")
 
 
 def replay(rec: dict) -> bool:
@@ -293,7 +333,8 @@ def replay(rec: dict) -> bool:
         ok, impl, *_ = _route_diff(case)
         return ok and rroute.oracle(case, impl) is None
     if r.get("rig") == "app":
-        return rnet.oracle(case, rnet.run_apps(case)) is None
+        ok, impl, model, i, records = _app_diff(case)
+        return ok and rnet.oracle(dict(case, consistent=case["app"]["mode"] == "all"), records) is None
     ok, impl, model, i, records = _net_diff(case)
     return ok and rnet.oracle(case, records) is None
 
